@@ -620,6 +620,9 @@ func (e *specEnv) evalCall(s *SpecExpr) (Term, types.Type) {
 			return x.unbox(v, t), t
 		case "box":
 			v, t := e.eval(args[0])
+			if isInterface(x.subst(types.Unalias(t))) || isNilType(t) {
+				return v, types.Universe.Lookup("any").Type() // an interface value converts to any unchanged
+			}
 			return e.boxPure(v, t), types.Universe.Lookup("any").Type()
 		case "nonnil":
 			v, t := e.eval(args[0])
@@ -696,6 +699,57 @@ func (e *specEnv) evalCall(s *SpecExpr) (Term, types.Type) {
 		case "zero":
 			t := x.resolveType(e.pkg, specTypeText(args[0]))
 			return x.zero(t), t
+		case "param":
+			// param(k): the k-th parameter of the function under contract (not shadowed by a local of the same name)
+			if args[0].Kind != "int" {
+				e.fail("param() needs an integer literal")
+			}
+			var k int
+			fmt.Sscanf(args[0].Val, "%d", &k)
+			ps := x.fn.Sig.Params()
+			if k >= ps.Len() {
+				e.fail("param(%d): the function has %d parameters", k, ps.Len())
+			}
+			v := ps.At(k)
+			if _, ok := e.st.vars[v]; !ok {
+				e.fail("param(%d) is not a named parameter", k)
+			}
+			// the entry value (generated code does not assign to its parameters; a later assignment would
+			// make this the current value, which is what the forwarding obligations are about anyway)
+			return x.loadVar(e.st, v), x.substDeep(v.Type())
+		case "produced":
+			// produced(v): v was returned by a call through a function value on this path
+			v, _ := e.eval(args[0])
+			set, ok := e.st.ghost["produced:"+string(v.Sort)]
+			if !ok {
+				return tFalse, boolT
+			}
+			return sel(set, v), boolT
+		case "argfor":
+			// argfor(v, f, k): the interface value v is an admissible k-th argument of the function value f:
+			// of exactly the parameter's type, or, for an interface-typed parameter, nil or an implementation
+			v, _ := e.eval(args[0])
+			_, ft := e.eval(args[1])
+			sig, ok := x.subst(types.Unalias(ft)).Underlying().(*types.Signature)
+			if !ok || args[2].Kind != "int" {
+				e.fail("argfor(v, f, k) needs a function-typed f and an integer literal k")
+			}
+			var k int
+			fmt.Sscanf(args[2].Val, "%d", &k)
+			pt := x.substDeep(sig.Params().At(k).Type())
+			if isInterface(pt) {
+				if it, _ := pt.Underlying().(*types.Interface); it != nil && it.Empty() {
+					return tTrue, boolT
+				}
+				return or(eq(v, intLit(0)), mk(SBool, "implements", mk(SInt, "dyn", v), x.ctx.Tag("iface:"+typeTagString(pt)))), boolT
+			}
+			return eq(mk(SInt, "dyn", v), x.tagOf(pt)), boolT
+		case "shares":
+			// shares(a, b): the slice values a and b have the same backing array (so a write through one
+			// is visible through the other)
+			a, _ := e.eval(args[0])
+			b, _ := e.eval(args[1])
+			return and(eq(x.sliceArr(a), x.sliceArr(b)), not(eq(x.sliceArr(a), intLit(0)))), boolT
 		case "iszero":
 			// iszero(e): e is the zero value of its own static type
 			v, t := e.eval(args[0])
@@ -1010,7 +1064,7 @@ func (e *specEnv) applyFuncT(fn *types.Func, recv *Term, recvT types.Type, args 
 			arr = store(arr, intLit(int64(n)), e.toType(v, vt, st0.Elem()))
 			n++
 		}
-		ts = append(ts, x.mkSlice(elem, arr, intLit(int64(n)), Term{fmt.Sprint(n > 0), SBool}))
+		ts = append(ts, x.mkSlice(elem, arr, intLit(int64(n)), Term{fmt.Sprint(n > 0), SBool}, intLit(0)))
 	}
 	if sig.Results().Len() == 0 {
 		e.fail("function %s has no result", fn.Name())
